@@ -37,8 +37,8 @@ structure Family (A : Type) where
   bor : A → A → A
   bnot : A → A
   hash : A → String
-  parse : List Nat → String → Option A     -- text, reference field
-  fmt : A → String → List Nat
+  parse : List Nat → Option A              -- constructor from text; `none` = invalid_address
+  fmt : A → Option (List Nat)              -- to_string(); `none` = invalid_address
   slash : A → Int → Slash A
   showMask : A → String
 
@@ -51,12 +51,14 @@ def fam4 : Family Nat where
   bor := V4.bor
   bnot := V4.bnot
   hash := fun a => toString (V4.hash a)
-  parse := fun s _ => V4.parse (s.takeWhile (· != 0))
-  fmt := fun a _ => V4.fmt a
+  parse := fun s => V4.parse (s.takeWhile (· != 0))
+  fmt := fun a => some (V4.fmt a)
   slash := slash4I
   showMask := fun m => toHexN (v4Out m)
 
-def famBuf (k : Nat) (hashed : Bool) (libcText : Bool) : Family Buf where
+/-- `v6 = true`: IPv6Address (text through the inet_pton / inet_ntop reference model, C string = up to the first NUL);
+    `v6 = false`: HWAddress<k> -/
+def famBuf (k : Nat) (hashed : Bool) (v6 : Bool) : Family Buf where
   n := k
   ops := bufOps
   dec := id
@@ -65,10 +67,10 @@ def famBuf (k : Nat) (hashed : Bool) (libcText : Bool) : Family Buf where
   bor := B.bor
   bnot := B.bnot
   hash := fun a => if hashed then toString (B.hash6 a) else "-"
-  parse := fun s ref => if libcText then (if ref.length == 2 * k then hexN ref else none) else B.parseHw k s
-  fmt := fun a ref => if libcText then (hexN ref).getD [] else B.fmtHw a
+  parse := fun s => if v6 then V6.parse (s.takeWhile (· != 0)) else B.parseHw k s
+  fmt := fun a => if v6 then V6.toString a else some (B.fmtHw a)
   slash := slashBufI k
-  showMask := fun m => if libcText then toHexN m else "-"
+  showMask := fun m => if v6 then toHexN m else "-"
 
 def showIter {A} (f : Family A) (r : Range A) (cap : Nat) : String :=
   if !r.isIterable f.ops then "it=0" else
@@ -97,17 +99,19 @@ def runModel {A} (f : Family A) (w : List String) : String :=
   | "bit" :: _ :: a :: b :: _ => match addr f a, addr f b with
     | some a, some b => s!"and={hx (o.band a b)} or={hx (f.bor a b)} not={hx (f.bnot a)}"
     | _, _ => "bad-op"
-  | "txt" :: _ :: t :: rest => match hexN t with
-    | some s => match f.parse s (rest.headD "x") with
+  | "txt" :: _ :: t :: _ => match hexN t with
+    | some s => match f.parse s with
       | some a => s!"ok {hx a}"
       | none => "throw invalid_address"
     | none => "bad-op"
-  | "fmt" :: _ :: a :: rest => match addr f a with
+  | "fmt" :: _ :: a :: _ => match addr f a with
     | some a =>
-      let s := f.fmt a (rest.headD "-")
-      -- the text is parsed back with the same constructor; for the libc-backed family the reference is echoed
-      let back := match f.parse s (toHexN (f.enc a)) with | some b => hx b | none => "throw:invalid_address"
-      s!"s={toHexN s} back={back}"
+      match f.fmt a with
+      | none => "throw invalid_address"
+      | some s =>
+        -- the text is parsed back with the same constructor
+        let back := match f.parse s with | some b => hx b | none => "throw:invalid_address"
+        s!"s={toHexN s} back={back}"
     | none => "bad-op"
   | "pfx" :: _ :: a :: p :: rest => match addr f a, p.toInt? with
     | some a, some p => match f.slash a p with
@@ -228,26 +232,33 @@ def specLine (op out : String) : String :=
           firstBad [want ow "and" (hexOf n (Nat.land a b)), want ow "or" (hexOf n (Nat.lor a b)),
                     want ow "not" (hexOf n (card n - 1 - a))]
         | _, _ => "unspecified"
-      | "txt", t :: rest => match hexN t with
+      | "txt", t :: _ => match hexN t with
         | some s =>
           if s.contains 0 then "unspecified" else
           let exp : Option (Option (List Nat)) :=
             if fam == "4" then some (parse4 s)
             else if fam == "h" then some (Spec.parseHw 6 s)
-            else match rest with
-              | r :: _ => if r == "x" then some none else (hexN r).map some
-              | [] => none
+            else some (parse6 s)
           match exp with
           | none => "unspecified"
           | some (some a) => if out == s!"ok {toHexN a}" then "ok" else s!"violates text-accept expected=ok {toHexN a}"
           | some none => if out == "throw invalid_address" then "ok" else "violates text-reject expected=throw invalid_address"
         | none => "unspecified"
-      | "fmt", a :: rest => match hexN a with
+      | "fmt", a :: _ => match hexN a with
         | some ab =>
           let s := if fam == "4" then some (toHexN (fmt4 ab)) else if fam == "h" then some (toHexN (Spec.fmtHw ab))
-                   else rest.head?
-          firstBad [(want ow "back" a).map (·.replace "violates back" "violates text-roundtrip"),
-                    match s with | some s => (want ow "s" s).map (·.replace "violates s" "violates text-form") | none => none]
+                   else some (toHexN (fmt6 ab))
+          -- what the printed text denotes according to the reference grammar (independent of the implementation's parser)
+          let denotes : Option String := match (kv ow "s").bind hexN with
+            | none => none
+            | some txt =>
+              let d := if fam == "4" then parse4 txt else if fam == "h" then Spec.parseHw 6 txt else parse6 txt
+              if d == some ab then none
+              else some s!"violates text-denotes expected={a} got={match d with | some b => toHexN b | none => "not-an-address"}"
+          firstBad [if isThrow out then some s!"violates text-format-throws {out}" else none,
+                    (want ow "back" a).map (·.replace "violates back" "violates text-roundtrip"),
+                    match s with | some s => (want ow "s" s).map (·.replace "violates s" "violates text-form") | none => none,
+                    denotes]
         | none => "unspecified"
       | "pfx", a :: p :: rest => match num a, p.toInt? with
         | some a, some pi =>
